@@ -40,7 +40,8 @@ func TestMain(m *testing.M) {
 		"address-taking (&x, &s.f, &a[i], through a function), writes through pointers, top-level if/for/switch, and the bulk action (10/200/1100/2100 further variables of one or mixed kinds, " +
 		"one input each / one input for all / one var(...) group / chunks of 64) followed by writes through every earlier pointer; values and all aliases are read back after each step with the trace recorder; " +
 		"each input is its own Interp.Eval (1 in 4 histories: the whole history through Interp.EvalReader as one stream); " +
-		"a case is non-trivial when the address of an integer-slot variable was taken, >= 1024 integer-slot-kind declarations followed, and that pointer was written through afterwards; distinct = distinct history texts")
+		"the assignment-forms action: a global of any kind (all sized ints, floats, complex, string, struct, array, slice, map, interface, func) whose address (and &v.f / &v[i]) was taken in earlier inputs is assigned by plain =, op=/++/element/field, tuple from a call, swap, multi-assign with constants, 3-tuple, range assignment, call result, assignment inside a function, or *p, n = ..., then read, written through the old pointers and read again; " +
+		"a case is non-trivial when the address of an integer-slot variable was taken, >= 1024 integer-slot-kind declarations followed, and that pointer was written through afterwards, or when it contains the assignment-forms action (address taken, later assignment form, write through the old pointer); distinct = distinct history texts")
 	vrec.Assume("oracle: gc toolchain (module at go 1.18) compiling the same inputs in the same order as the body of one function: declarations become locals, `func f(..)` becomes `var f func(..); f = func(..)`; trace formatted by the same compiled recorder on both sides")
 	vrec.Assume("redefinitions are not generated (not valid Go; C15's subject); histories are panic-free by construction")
 	os.Exit(vlib.Main(m, vrec))
@@ -82,7 +83,7 @@ func failingInput(p gobatch.Program, err string) string {
 func config() gobatch.Config {
 	registerRec()
 	return gobatch.Config{
-		Rec: vrec, Name: "c14", N: vrec.Scale(70, 150),
+		Rec: vrec, Name: "c14", N: vrec.Scale(90, 150),
 		Gen: Generate, Known: known, Interp: runHistory, OracleOf: oracleOf,
 	}
 }
